@@ -91,14 +91,16 @@ func (lc *LocalClient) AddVersion(v Version, deps []RequirementVersion) {
 	for i, w := range versions {
 		if w.VersionKey == v.VersionKey {
 			existed = true
-			versions[i] = w
+			versions[i] = v
 		}
 	}
-	// Otherwise insert and sort.
+	// Otherwise insert.
 	if !existed {
 		versions = append(versions, v)
-		SortVersions(versions)
 	}
+	// Sort in both cases: the attributes of a replaced version (such as
+	// its tags) take part in the ordering.
+	SortVersions(versions)
 	lc.PackageVersions[v.PackageKey] = versions
 
 	SortDependencies(deps)
